@@ -11,6 +11,16 @@ TRUST = ("trusted base: rustc's MIR dump of the current tree, the mirsym interpr
 
 # id -> (level text, note, design ref)
 CLAIMED = {
+    "C01": ("All token slices of length <= L (quick 4, thorough 6) with every token variant and payload a solver variable, through the real token-level parser "
+            "(parse_instructions, parse_expression, parse_memory_reference, parse_frame_identifier): no path may reach a panic, todo!, unreachable or a failed "
+            "overflow/bounds assertion. Candidates are rendered to text, checked to lex back to the same tokens (hook) and replayed through the public from_str.",
+            TRUST + "; the lexer (characters to tokens) and error Display are outside the claim", "5/C01"),
+    "C05": ("Every operand position (19 templates) with the literal token's value a 64-bit vector / finite double and the sign token ranging over all operators: "
+            "the parsed operand equals s*v over the integers (z3 BV2Int) or exactly in IEEE binary64, or parsing fails.",
+            TRUST + "; digit strings to token values (lexical) are outside the claim", "5/C05"),
+    "C06": ("Every name position (26 templates) with the identifier chosen by the solver from a 17-name mixed-case alphabet including reserved words: the name in the "
+            "parsed AST equals the token payload (reserved words in expressions excepted).",
+            TRUST + "; lex_identifier_raw is outside the claim", "5/C06"),
     "C28": ("All bodies of at most N instructions (quick 4, thorough 5) over 11 instruction kinds with solver-chosen label names, qubits and indices: "
             "the real `From<&Program> for ControlFlowGraph` is executed symbolically and the block partition, labels, terminators, offsets and the "
             "dynamic flag are compared with a reference partition; z3 closes every path.",
@@ -61,8 +71,8 @@ def main():
     man = {
         "version": 1,
         "setup_cmd": "./setup.sh",
-        "hooks": {"guard": "rigetti_quil_rs_verif", "enable": "no hooks are needed: MIR gives access to crate-private functions and replay goes through the public API",
-                  "baseline_off_cmd": "cd /repo && CARGO_NET_OFFLINE=true cargo test --workspace --no-fail-fast --offline", "source_commits": [], "add_only": True},
+        "hooks": {"guard": "rigetti_quil_rs_verif", "enable": "the replay runner is built with RUSTFLAGS=--cfg rigetti_quil_rs_verif (quil_rs::verif_hooks::lex_debug: observe the lexer's tokens); the MIR dump is taken without the flag",
+                  "baseline_off_cmd": "cd /repo && CARGO_NET_OFFLINE=true cargo test --workspace --no-fail-fast --offline", "source_commits": ["b647e69"], "add_only": True},
         "engines": [{"name": "mirsym", "path": "/verif/mirsym", "serves_properties": sorted(CLAIMED),
                      "kind_free_text": "symbolic interpreter for rustc MIR text (Python) + z3; native replay runner in /verif/replay (Rust, links the real crate)"}],
         "checks": checks,
